@@ -320,3 +320,18 @@ package common
 //@   property C01
 //@   ensures result != nil && result.off == 0 && result.s == b
 //@   fresh result
+
+//@ func (*Uint256).ToArray
+//@   property C01
+//@   ensures len(result) == 32 && packbytes(result, 0, 32) == *u
+//@   assumes bytes(result) == bytes(*u)   -- abstract content of the copy is the content of the array (the clause above pins every byte)
+//@   fresh result
+//@   loop 1 invariant len(x) == 32 && fresh(ref(x)) && off(x) == 0
+//@   loop 1 invariant forall j int :: 0 <= j && j < i ==> x[j] == (*u)[j]
+
+//@ func (*ZeroCopySink).Bytes
+//@   inline
+//@ func NewZeroCopySink
+//@   property C01
+//@   ensures result != nil && (b != nil ==> result.buf == b) && (b == nil ==> len(result.buf) == 0 && fresh(ref(result.buf)))
+//@   fresh result
